@@ -1,14 +1,17 @@
 // C14 auxiliary (free-running, built with -race against the unmodified repository):
-//   (c) a decoded value never aliases the input buffer or a recycled coder: for every value of the C01
-//       universe (depth 1) decode, overwrite the input, reuse pooled coders for other data, compare again;
-//   (d) complement, not a deciding step: the thread bodies of the schedule exploration run free under the
-//       race detector for a fixed number of rounds with fresh types each round (registries reset).
+//
+//	(c) a decoded value never aliases the input buffer or a recycled coder: for every value of the C01
+//	    universe (depth 1) decode, overwrite the input, reuse pooled coders for other data, compare again;
+//	(d) complement, not a deciding step: the thread bodies of the schedule exploration run free under the
+//	    race detector for a fixed number of rounds with fresh types each round (registries reset).
+//
 // Output: one JSON object on stdout.
 package main
 
 import (
 	"encoding/json"
 	"fmt"
+	"math/big"
 	"os"
 	"reflect"
 	"sync"
@@ -107,12 +110,60 @@ func main() {
 	}
 	o.Evaluations += nAlias
 	o.Info["aliasing_cases"] = nAlias
+	// ---- (c2) two decodes of the same bytes are independent values: the first result is scribbled over (big
+	// numbers set to other numbers, slice elements overwritten, maps emptied), then the same bytes are decoded
+	// again; the second result must be what the first one was. A decoder that hands out shared package-level
+	// values (or anything a recycled coder keeps) fails this.
+	tokens := []string{"t", "f", "e", "n", "0", "1", "9", "i7;", "l12345678901234567890;", "d1.5;", "d3;", `s2"12"`, "u1", `b2"ab"`, "a2{12}", "a2{tf}", "m1{uat}", `s3"1/3"`, "I+", "N"}
+	dests := []interface{}{
+		big.Int{}, (*big.Int)(nil), big.Float{}, (*big.Float)(nil), big.Rat{}, (*big.Rat)(nil), []byte(nil), []int(nil), (*int)(nil), (*string)(nil),
+		[]*big.Int(nil), map[string]*big.Int(nil), []big.Rat(nil), [2]*big.Float{}, struct{ A, B *big.Int }{}, new(interface{}), []interface{}(nil),
+	}
+	var nIndep int64
+	for _, tok := range tokens {
+		for _, d := range dests {
+			t := reflect.TypeOf(d)
+			if t.Kind() == reflect.Ptr && t.Elem().Kind() == reflect.Interface {
+				t = t.Elem()
+			}
+			for _, simple := range []bool{true, false} {
+				p1, p2 := reflect.New(t), reflect.New(t)
+				var e1, e2 error
+				msg, _ := iocase.Guard(func() { e1 = hio.Formatter{Simple: simple}.Unmarshal([]byte(tok), p1.Interface()) })
+				if msg != "" || e1 != nil {
+					continue
+				}
+				before := gen.Canon(p1.Elem())
+				msg, _ = iocase.Guard(func() { scribble(p1.Elem(), 0) })
+				if msg != "" {
+					add("independence|scribble-panics|dest="+t.String(), fmt.Sprintf("token %q into %s: changing the decoded value panics: %s", tok, t, msg))
+					continue
+				}
+				msg, _ = iocase.Guard(func() { e2 = hio.Formatter{Simple: simple}.Unmarshal([]byte(tok), p2.Interface()) })
+				nIndep++
+				if msg != "" || e2 != nil {
+					add("independence|second-decode-fails|dest="+t.String(), fmt.Sprintf("token %q into %s: the first decode succeeded, after changing its result the second one fails: %v %s", tok, t, e2, msg))
+					continue
+				}
+				if after := gen.Canon(p2.Elem()); after != before {
+					add("independence|second-decode-sees-changes-made-to-the-first-result|dest="+t.String(),
+						fmt.Sprintf("token %q into %s (simple=%v): first decode gave %s; after the caller changed that value, decoding the same bytes again gives %s", tok, t, simple, trunc(before), trunc(after)))
+				}
+			}
+		}
+	}
+	o.Evaluations += nIndep
+	o.Info["independence_cases"] = nIndep
 	// ---- (d) free-running race pass ----
 	hio.VerifSnapshotRegistries()
 	rounds := 300
 	want := map[string]string{}
 	bodies := map[string]func() string{
-		"marshalA": func() string { b := &B{7, "seven"}; r, _ := hio.Formatter{}.Marshal(A{b, B{8, "seven"}, "seven"}); return string(r) },
+		"marshalA": func() string {
+			b := &B{7, "seven"}
+			r, _ := hio.Formatter{}.Marshal(A{b, B{8, "seven"}, "seven"})
+			return string(r)
+		},
 		"marshalB": func() string { r, _ := hio.Formatter{}.Marshal(B{9, "nine"}); return string(r) },
 		"marshalR": func() string { x := &R{V: 1}; x.Next = &R{2, x}; r, _ := hio.Formatter{}.Marshal(x); return string(r) },
 		"unmarshalA": func() string {
@@ -154,6 +205,66 @@ func main() {
 	o.Info["race_rounds"] = rounds
 	o.Info["race_detector"] = "enabled (a detected race aborts this process with exit status 66)"
 	json.NewEncoder(os.Stdout).Encode(o)
+}
+
+// scribble changes everything reachable from v that a caller could legitimately change in place.
+func scribble(v reflect.Value, depth int) {
+	if !v.IsValid() || depth > 6 {
+		return
+	}
+	if v.CanAddr() {
+		switch x := v.Addr().Interface().(type) {
+		case *big.Int:
+			x.SetInt64(7777)
+			return
+		case *big.Float:
+			x.SetFloat64(7777.5)
+			return
+		case *big.Rat:
+			x.SetFrac64(7777, 13)
+			return
+		}
+	}
+	switch v.Kind() {
+	case reflect.Ptr, reflect.Interface:
+		if !v.IsNil() {
+			e := v.Elem()
+			if v.Kind() == reflect.Interface && e.Kind() != reflect.Ptr && e.Kind() != reflect.Slice && e.Kind() != reflect.Map {
+				return // a value boxed in an interface is not addressable: nothing to change in place
+			}
+			scribble(e, depth+1)
+		}
+	case reflect.Slice, reflect.Array:
+		for i := 0; i < v.Len(); i++ {
+			scribble(v.Index(i), depth+1)
+		}
+	case reflect.Map:
+		for _, k := range v.MapKeys() {
+			e := v.MapIndex(k)
+			if e.Kind() == reflect.Ptr || e.Kind() == reflect.Slice || e.Kind() == reflect.Map || e.Kind() == reflect.Interface {
+				scribble(e, depth+1)
+			}
+			v.SetMapIndex(k, reflect.Value{})
+		}
+	case reflect.Struct:
+		for i := 0; i < v.NumField(); i++ {
+			if v.Field(i).CanSet() {
+				scribble(v.Field(i), depth+1)
+			}
+		}
+	case reflect.Int, reflect.Int8, reflect.Int16, reflect.Int32, reflect.Int64:
+		if v.CanSet() {
+			v.SetInt(0x5a)
+		}
+	case reflect.Uint, reflect.Uint8, reflect.Uint16, reflect.Uint32, reflect.Uint64:
+		if v.CanSet() {
+			v.SetUint(0x5a)
+		}
+	case reflect.Float32, reflect.Float64:
+		if v.CanSet() {
+			v.SetFloat(90.5)
+		}
+	}
 }
 
 type chunkReader struct {
